@@ -134,13 +134,19 @@ struct Agg
     max_trace: usize,
 }
 
-fn explore(prop: &str, profile: &'static str, vseed: u64, runs: u64, threads: usize) -> Agg
+fn explore(prop: &str, profile: &'static str, vseed: u64, runs: u64, threads: usize, thorough: bool) -> Agg
 {
-    let cfg = gen::profile(profile);
+    let mut cfg = gen::profile(profile);
+    // the thorough tier alternates between the quick tier's program sizes and larger ones (second half of the run indices)
+    let mut big = cfg.clone();
+    gen::scale_up(&mut big);
+    if !thorough { big = cfg.clone(); }
+    let _ = &mut cfg;
     let mut handles = Vec::new();
     for t in 0..threads
     {
         let cfg = cfg.clone();
+        let big = big.clone();
         let prop = prop.to_string();
         handles.push(std::thread::Builder::new().stack_size(64 << 20).spawn(move ||
         {
@@ -149,7 +155,7 @@ fn explore(prop: &str, profile: &'static str, vseed: u64, runs: u64, threads: us
             while idx < runs
             {
                 let seed = run_seed(vseed, profile, idx);
-                let prog = Arc::new(gen::generate(seed, &cfg));
+                let prog = Arc::new(gen::generate(seed, if idx % 2 == 1 { &big } else { &cfg }));
                 let (_, r) = run_and_check(&prog);
                 a.evaluations += 1;
                 a.stats.add(&r.stats);
@@ -243,7 +249,7 @@ fn cmd_check(a: Args) -> i32
     let mut total = Agg::default();
     for p in &profiles
     {
-        let ag = explore(prop, p, a.seed, runs, a.threads);
+        let ag = explore(prop, p, a.seed, runs, a.threads, thorough);
         total.stats.add(&ag.stats);
         total.evaluations += ag.evaluations;
         total.inconclusive += ag.inconclusive;
